@@ -10,6 +10,7 @@ import (
 	"errors"
 	"fmt"
 	"os"
+	"sync"
 	"testing"
 	"testing/synctest"
 	"time"
@@ -26,6 +27,7 @@ type c17Scenario struct {
 	zero  bool // the loop's first pass does not wait (establishRegion)
 	batch bool
 	two   bool // two regions on two servers, a batch with one call each
+	loops int  // > 1: that many regions on the failing server, one concurrent request each (attempts of the loops interleave)
 	setup func(cl *verifsim.Cluster, mark func())
 	opts  []Option
 	// run for this much virtual time
@@ -160,6 +162,16 @@ func TestVerifC17(t *testing.T) {
 		}
 		all = append(all, b)
 	}
+	// several regions of one persistently failing server, each with a waiting request: one retry loop per region, none more
+	for _, s := range scenarios {
+		switch s.name {
+		case "dial-refused-forever", "server-drops-every-connection", "region-never-online", "server-accepts-then-drops-requests":
+			m := s
+			m.loops = 3
+			m.name += "/3-regions"
+			all = append(all, m)
+		}
+	}
 	for rep2 := 0; rep2 < 6; rep2++ { // the order in which SendBatch waits for the servers is Go map order: several runs
 		x := twoServers
 		x.name = fmt.Sprintf("%s/%d", twoServers.name, rep2)
@@ -177,6 +189,12 @@ func TestVerifC17(t *testing.T) {
 			if s.two {
 				cl.AddServer("rs2")
 				cl.CreateTable("t", [][]byte{[]byte("m")}, []string{"rs1", "rs2"})
+			} else if s.loops > 1 {
+				var sp [][]byte
+				for i := 1; i < s.loops; i++ {
+					sp = append(sp, []byte{byte('a' + 6*i)})
+				}
+				cl.CreateTable("t", sp, []string{"rs1"})
 			} else {
 				cl.CreateTable("t", nil, []string{"rs1"})
 			}
@@ -184,7 +202,10 @@ func TestVerifC17(t *testing.T) {
 			var times []int
 			ctx, cancel := context.WithCancel(context.Background())
 			hot := false
+			var tmu sync.Mutex
 			mark := func() {
+				tmu.Lock()
+				defer tmu.Unlock()
 				times = append(times, int(time.Since(t0)/time.Microsecond))
 				if len(times) > 3000 && !hot { // no virtual time passes between attempts: a hot loop; stop it
 					hot = true
@@ -200,6 +221,17 @@ func TestVerifC17(t *testing.T) {
 					p1, _ := hrpc.NewPut(ctx, []byte("t"), []byte("a!"), map[string]map[string][]byte{"f": {"q": []byte("v")}})
 					p2, _ := hrpc.NewPut(ctx, []byte("t"), []byte("n!"), map[string]map[string][]byte{"f": {"q": []byte("v")}})
 					c.SendBatch(ctx, []hrpc.Call{p1, p2})
+				} else if s.loops > 1 {
+					var wg sync.WaitGroup
+					for i := 0; i < s.loops; i++ {
+						wg.Add(1)
+						go func() {
+							defer wg.Done()
+							g, _ := hrpc.NewGet(ctx, []byte("t"), []byte{byte('a' + 6*i), 'x'}, hrpc.SkipBatch())
+							c.Get(g)
+						}()
+					}
+					wg.Wait()
 				} else if s.batch {
 					p, _ := hrpc.NewPut(ctx, []byte("t"), []byte("k"), map[string]map[string][]byte{"f": {"q": []byte("v")}})
 					c.SendBatch(ctx, []hrpc.Call{p})
@@ -245,7 +277,7 @@ func TestVerifC17(t *testing.T) {
 			c.Close()
 			time.Sleep(40 * time.Second)
 			synctest.Wait()
-			ndj.Write(map[string]any{"ev": "scenario", "name": s.name, "imm": s.imm, "cost": s.cost, "tol": s.tol, "zero": s.zero})
+			ndj.Write(map[string]any{"ev": "scenario", "name": s.name, "imm": s.imm, "cost": s.cost, "tol": s.tol, "zero": s.zero, "loops": max(1, s.loops)})
 			for _, x := range times {
 				ndj.Write(map[string]any{"ev": "attempt", "t": x})
 			}
